@@ -113,9 +113,28 @@ def gen_spec(r, idx, transport=None, no_namespace=False):
     used_rpc = {}        # nocase(name) -> (name, request message)
     nmsg = 0
     internal_api = r.maybe(0.45)
+    # service shapes: a service may declare NO RPC at all (`service Heartbeat {}`: its clients are still emitted and
+    # exported), exactly one, only streaming RPCs, only internal RPCs; sometimes the FIRST or the LAST service by
+    # name (the metadata is built over the services sorted by name) is the empty one
+    shapes = {}
+    for sn in snames:
+        x = r.random()
+        shapes[sn] = "empty" if x < 0.12 else "single" if x < 0.27 else "streaming-only" if x < 0.35 else \
+            "internal-only" if x < 0.43 else "ordinary"
+    edge = r.random()
+    if edge < 0.12:
+        shapes[min(snames)] = "empty"
+    elif edge < 0.24:
+        shapes[max(snames)] = "empty"
+    elif edge < 0.28:
+        shapes[min(snames)] = shapes[max(snames)] = "empty"
+    if any(v == "internal-only" for v in shapes.values()):
+        internal_api = True
+    spec["shapes"] = shapes
     for sn in snames:
         methods = []
-        for _ in range(r.randint(1, 5)):
+        shape = shapes[sn]
+        for _ in range({"empty": 0, "single": 1}.get(shape) if shape in ("empty", "single") else r.randint(1, 5)):
             name = r.pick(KEYWORD_RPCS) if r.maybe(0.4) else r.pick(PLAIN_RPCS)
             if any(nocase(m["name"]) == nocase(name) for m in methods):
                 continue
@@ -135,16 +154,29 @@ def gen_spec(r, idx, transport=None, no_namespace=False):
             # server-, client- and bidi-streaming RPCs under EVERY transport set: the client defines the method for
             # each of them also when `rest` is requested (only the REST stub raises NotImplementedError)
             streaming = r.random()
-            methods.append({"name": name, "input": inp, "internal": internal_api and r.maybe(0.5),
+            if shape == "streaming-only":
+                streaming = r.pick([0.05, 0.12, 0.18])     # server / client / bidi
+            methods.append({"name": name, "input": inp, "internal": shape == "internal-only" or (internal_api and r.maybe(0.5)),
                             "ss": streaming < 0.10 or 0.16 <= streaming < 0.22, "cs": 0.10 <= streaming < 0.22,
                             "lro": 0.22 <= streaming < 0.30})
-        if not methods:
-            methods.append({"name": f"Ping{len(spec['services'])}", "input": "google.protobuf.Empty", "internal": False,
-                            "ss": False, "cs": False, "lro": False})
+        if not methods and shape != "empty":
+            methods.append({"name": f"Ping{len(spec['services'])}", "input": "google.protobuf.Empty", "internal": shape == "internal-only",
+                            "ss": shape == "streaming-only", "cs": False, "lro": False})
         spec["services"].append({"name": sn, "methods": methods})
     allm = [m for s in spec["services"] for m in s["methods"]]
-    if internal_api and all(m["internal"] for m in allm):
-        allm[0]["internal"] = False      # selective generation needs at least one listed method
+    if internal_api and allm and all(m["internal"] for m in allm):
+        # selective generation needs at least one listed method: a public one in a service that is not internal-only
+        free = [m for s in spec["services"] if shapes[s["name"]] != "internal-only" for m in s["methods"]]
+        if free:
+            free[0]["internal"] = False
+        else:
+            host = next((s for s in spec["services"] if shapes[s["name"]] not in ("internal-only", "empty")), None)
+            if host is None:
+                host = next(s for s in spec["services"] if shapes[s["name"]] == "internal-only")
+                shapes[host["name"]] = "ordinary"
+            host["methods"].append({"name": "PingPublic", "input": "google.protobuf.Empty", "internal": False,
+                                    "ss": False, "cs": False, "lro": False})
+            allm = [m for s in spec["services"] for m in s["methods"]]
     if "grpc" in spec["transport"].split("+") and r.maybe(0.15):
         spec["add_iam"] = True           # legacy IAM methods: three fixed rows in the fix-up table, nothing in the metadata
     if r.maybe(0.2):
@@ -168,8 +200,8 @@ def gen_spec(r, idx, transport=None, no_namespace=False):
     elif inject < 0.12 and len(spec["services"]) >= 2:
         # one RPC name, two services, different requests (hypothesis FixupUnambiguous; informational)
         s1, s2 = spec["services"][0], spec["services"][1]
-        m = s1["methods"][0]
-        if not any(nocase(x["name"]) == nocase(m["name"]) for x in s2["methods"]):
+        m = s1["methods"][0] if s1["methods"] and shapes[s2["name"]] == "ordinary" else None
+        if m is not None and not any(nocase(x["name"]) == nocase(m["name"]) for x in s2["methods"]):
             nmsg += 1
             msg = gen_message(r, f"Req{nmsg}Other")
             spec["messages"].append(msg)
@@ -250,6 +282,21 @@ def corpus_specs():
         t = copy.deepcopy(s)
         t["package"], t["dir"], t["transport"] = "mollusca.v1", "mollusca/v1", tr
         out.append(("no_namespace_" + tr.replace("+", "_"), t))
+    # (4c) services that declare NO RPC (their clients are emitted and exported all the same), first / last / both by
+    #      name, next to a single-RPC, a streaming-only and an internal-only service
+    mk = lambda n, inp="google.protobuf.Empty", **k: dict({"name": n, "input": inp, "internal": False, "ss": False, "cs": False, "lro": False}, **k)
+    for tr, first, last in (("grpc", True, False), ("rest", False, True), ("grpc+rest", True, True)):
+        t = base(tr)
+        t["messages"] = [{"name": "GetBookRequest", "fields": [_fd("name", True, number=2), _fd("class", False, number=1)]}]
+        t["services"] = ([{"name": "Archive", "methods": []}] if first else []) + [
+            {"name": "Catalog", "methods": [mk("Watch", "GetBookRequest", ss=True), mk("Talk", ss=True, cs=True)]},
+            {"name": "Importer", "methods": [mk("Import", "GetBookRequest", internal=True)]},
+            {"name": "Library", "methods": [mk("GetBook", "GetBookRequest")]}] + ([{"name": "Shelves", "methods": []}] if last else [])
+        t["n_files"] = 2
+        out.append(("empty_service_" + tr.replace("+", "_"), t))
+    t = base("grpc+rest")
+    t["services"] = [{"name": "Heartbeat", "methods": []}]
+    out.append(("empty_service_alone", t))
     # (5) internal service + keyword RPC under every transport set, three proto files, Locations mixin, legacy IAM
     for tr in TRANSPORTS:
         s = base(tr)
@@ -454,6 +501,16 @@ def model_md_dict(mo):
                                          for k, c, rpcs in clients}} for s, clients in mo["services"]}}
 
 
+def norm_md(d):
+    """the JSON form of a proto message omits empty maps: a client entry without `rpcs` (a service that declares no RPC)
+    and one with `rpcs: {}` denote the same message; likewise `clients` and `services`"""
+    out = {"protoPackage": d.get("protoPackage"), "libraryPackage": d.get("libraryPackage"), "services": {}}
+    for sn, sd in (d.get("services") or {}).items():
+        out["services"][sn] = {"clients": {k: {"libraryClient": cd.get("libraryClient", ""), "rpcs": cd.get("rpcs") or {}}
+                                           for k, cd in (sd.get("clients") or {}).items()}}
+    return out
+
+
 def parse_json_strict(text):
     dups = []
 
@@ -493,7 +550,7 @@ def static_index(byname, libdir):
     be imported (a library without a namespace part: its __init__ reads `from .solo_v2 import gapic_version`, C01).
     {"all": names in __all__ of <libdir>/__init__.py, "classes": {class: {def name: ([parameter names], is async def)}}
      of services/*/client.py + async_client.py, "fields": {message class: [python field names, declaration order]}}"""
-    idx = {"all": [], "classes": {}, "fields": {}, "errors": []}
+    idx = {"all": [], "classes": {}, "fields": {}, "errors": [], "service_classes": {}}
 
     def tree_of(n):
         try:
@@ -523,6 +580,7 @@ def static_index(byname, libdir):
                         if isinstance(d, (ast.FunctionDef, ast.AsyncFunctionDef)):
                             defs[d.name] = ([a.arg for a in d.args.posonlyargs + d.args.args], isinstance(d, ast.AsyncFunctionDef))
                     idx["classes"][st.name] = defs
+                    idx["service_classes"].setdefault(rel[1], {}).setdefault(rel[2], []).append(st.name)
         elif len(rel) == 2 and rel[0] == "types" and rel[1].endswith(".py"):
             t = tree_of(n)
             for st in (ast.walk(t) if t else []):
@@ -659,6 +717,18 @@ def run_spec(ctx, spec, label, probe=None):
                  distinct_key=["api", json.dumps(spec, sort_keys=True)])
         ctx.count("transport", spec["transport"]); ctx.count("services", len(spec["services"]))
         ctx.count("package", spec["package"])
+        by_name = sorted(s_["name"] for s_ in spec["services"])
+        for s_ in spec["services"]:
+            ms_ = s_["methods"]
+            shp = "no RPC" if not ms_ else "one RPC" if len(ms_) == 1 else "several RPCs"
+            ctx.count("service_shape", shp)
+            if ms_ and all(m_["internal"] for m_ in ms_):
+                ctx.count("service_shape", "only internal RPCs")
+            if ms_ and all(m_.get("ss") or m_.get("cs") for m_ in ms_):
+                ctx.count("service_shape", "only streaming RPCs")
+            if not ms_:
+                ctx.count("empty_service_position", "only service" if len(by_name) == 1 else "first by name" if s_["name"] == by_name[0]
+                          else "last by name" if s_["name"] == by_name[-1] else "middle")
         for s in spec["services"]:
             for m in s["methods"]:
                 ctx.count("rpc_kind", ("internal+" if m["internal"] else "") +
@@ -677,7 +747,7 @@ def run_spec(ctx, spec, label, probe=None):
         impl_md = MessageToDict(api.gapic_metadata(opts))
         impl_cmp = {k: impl_md.get(k) for k in ("protoPackage", "libraryPackage", "services")}
         ctx.traces += 1
-        if impl_cmp != model_md_dict(mo):
+        if norm_md(impl_cmp) != norm_md(model_md_dict(mo)):
             ctx.disagree("T2:c15.gapic_metadata", f"model {json.dumps(model_md_dict(mo), sort_keys=True)[:600]} vs impl {json.dumps(impl_cmp, sort_keys=True)[:600]}", payload)
         names = {n["service"]: n for n in mo["names"]}
         for s in spec["services"]:
@@ -785,6 +855,30 @@ def run_spec(ctx, spec, label, probe=None):
         want_services = {s["name"] for s in spec["services"]}
         if set(md.get("services", {})) != want_services:
             fails.append(("services-listed", f"services listed {sorted(md.get('services', {}))} expected {sorted(want_services)}"))
+        # ... and from the EMITTED package towards the metadata: every client class the library package exports
+        # (defined in services/<service>/client.py | async_client.py) is the libraryClient of a listed service under
+        # each client kind it serves (client.py: grpc and/or rest as requested; async_client.py: grpc-async)
+        if libdir is not None:
+            if idx is None:
+                idx = static_index(byname, libdir)
+            exported = set(imp.get("all") or [])
+            listed_by_kind = {}
+            for sd_ in md.get("services", {}).values():
+                for kind_, cd_ in sd_.get("clients", {}).items():
+                    listed_by_kind.setdefault(kind_, set()).add(cd_.get("libraryClient", ""))
+            n_emitted = 0
+            for svcdir, mods in sorted(idx["service_classes"].items()):
+                for modname, classes in sorted(mods.items()):
+                    for cname in classes:
+                        if cname not in exported:
+                            continue
+                        n_emitted += 1
+                        serves = ({"grpc-async"} if modname == "async_client.py" else {"grpc", "rest"}) & kinds
+                        for kind_ in sorted(serves):
+                            if cname not in listed_by_kind.get(kind_, set()):
+                                fails.append((f"emitted-client-unlisted:{kind_}", f"the library package exports {cname} (services/{svcdir}/{modname}) "
+                                              f"but no service of gapic_metadata.json maps client kind {kind_!r} to it (services listed: {sorted(md.get('services', {}))})"))
+            ctx.count("exported_client_classes", n_emitted)
         dirs, regs, fields_of = {}, {}, {}
         model_class_dir = {}
         sig_ok, coro = {}, {}
@@ -974,7 +1068,7 @@ def run_spec(ctx, spec, label, probe=None):
                 ctx.fail(key, f"[{label}] {what}", payload)
         # ------------------------------------------------------------------ T3: model vs emitted artefacts
         emitted_cmp = {k: md.get(k) for k in ("protoPackage", "libraryPackage", "services")}
-        if emitted_cmp != model_md_dict(mo):
+        if norm_md(emitted_cmp) != norm_md(model_md_dict(mo)):
             ctx.disagree("T3:c15.metadata_json", f"model {json.dumps(model_md_dict(mo), sort_keys=True)[:500]} vs emitted {json.dumps(emitted_cmp, sort_keys=True)[:500]}", payload)
         mi_t = dict(mi, op="c15.table", add_iam=bool(spec.get("add_iam")))
         model_table = {k: v for k, v in ctx.driver.ask([mi_t])[0]["fixup"]}
@@ -1041,7 +1135,8 @@ def run(ctx):
 
 def _run(ctx):
     ctx.rule = ("APIs of 2..4 services in one package (1 or 2 proto files; 4 package shapes; optional name/namespace options) with "
-                "1..5 RPCs each drawn from keyword-named (any letter case), internal (selective generation, "
+                "0..5 RPCs each (service shapes: no RPC at all, exactly one, only streaming, only internal, ordinary; the empty service "
+                "sometimes first / last / first and last by name) drawn from keyword-named (any letter case), internal (selective generation, "
                 "generate_omitted_as_internal), snake/acronym/digit-named pools; requests of 0..7 fields drawn from reserved-word and "
                 "plain pools (REQUIRED at random positions, repeated/map/optional/oneof/message/enum; field NUMBERS shuffled/gapped/reversed "
                 "independently of the declaration order), Empty requests, streaming and "
@@ -1125,7 +1220,10 @@ CLAIM = dict(
           'client_method_name, to_snake_case, legacy_flattened_fields vs the model on generated APIs; T3 the emitted '
           'gapic_metadata.json and METHOD_TO_PARAMS (AST + import with libcst) vs the model and, independent of the model, vs '
           'introspection of the imported package (class exists and serves the kind, method exists with a request parameter) and '
-          'the input descriptors (required first, declaration order, python-level field names of the emitted request class); the emitted '
+          'the input descriptors (required first, declaration order, python-level field names of the emitted request class); in the other '
+          'direction every client class the emitted package exports (services/<svc>/client.py, async_client.py, read with ast) must be the '
+          'libraryClient of a listed service under each kind it serves (services without RPCs included: metadata_clients_complete_once, '
+          'emitted_classes_listed); the emitted '
           'transformer is RUN with libcst on generated old-style call sites (positional, surplus control arguments, keywords in and out '
           'of order, nested calls, already fixed calls, foreign and bare calls) and compared with the model and with the required-first '
           'declaration order of the input descriptors. The library package named by the metadata is compared with the directory the '
